@@ -483,6 +483,18 @@ class NF:
             if sel is not None:
                 return self.formula(sel)
             return ("match", self.gen(t[1]), tuple((a[0], self.formula(a[-1])) for a in t[2] if a[-1][0] != "panic"))
+        if t[0] == "returns" and len(t) == 2 and t[1] and t[1][-1][0] == ("fallthrough",):
+            # early returns are the branches of a conditional: `if c { return A } B` is `if c { A } else { B }`
+            rest = t[1][-1][1]
+            for conds, val in reversed(t[1][:-1]):
+                cs = [(c_[0] if c_[1] else ("op", "Not", c_[0])) for c_ in conds if len(c_) >= 2 and not (isinstance(c_[0], tuple) and c_[0][:1] == ("survived",))]
+                if not cs:
+                    return ("F?", self.gen(t))
+                cond = cs[0]
+                for c_ in cs[1:]:
+                    cond = ("bin", "And", cond, c_)
+                rest = ("if", cond, val, rest)
+            return self.formula(rest)
         if t[0] == "if":
             a, b = self.formula(t[2]), self.formula(t[3])
             # if !vars.is_empty() { Q vars F } else { F }
